@@ -27,7 +27,7 @@ claimed.update({
 claimed.update({
  "C18": dict(level="fault_enumeration", ref="§5 C18",
    text="Tape-generated histories of user/route create/update/delete/flush on the real auth and route managers with their JSON providers on a simulated disk, checked against a model after every operation and after flush+restart; then exhaustively, for every flush of the history: process death before every file-system operation, torn writes at four offsets, ENOSPC/EIO at every operation followed by an immediate crash or by a retry. Oracle: a restarted server loads the complete previous or the complete new table, never fails to load, never falls back to admin/admin.",
-   note="Trusted: simfs (in-memory stand-in for os/ioutil, import-substituted), its crash model (process death, completed calls persist; no power-loss reordering), encoding/json. Exhaustive over crash points per flush, seeded over histories."),
+   note="Trusted: simfs (in-memory stand-in for os/ioutil, import-substituted), its crash model (process death, completed calls persist; no power-loss reordering), encoding/json. Exhaustive over crash points per flush, seeded over histories; after every crash-restart the server shrinks its tables, flushes and restarts once more. A second family (edits-during-flush) races an editor task against a flusher task with every manager lock and file-system operation a schedule point."),
 })
 claimed.update({
  "C14": dict(level="exploration", ref="§5 C14",
